@@ -44,7 +44,7 @@ def _run(prog: Prog, async_conds: int, tv: Any, body_raises: bool, async_level: 
 def run_diff(kind: str, cmode: int, a0: int, b0: int, s0: int, i0: int, d1: int, a1: int, b1: int, br: bool,
              p0: bool, p1: bool, p2: bool, p3: bool, q0: bool, q1: bool, q2: bool,
              v0: bool, w0: bool) -> Tuple[bool, bool]:
-    cmode = conc(cmode, 0, 2)
+    cmode = conc(cmode, 0, 3)
     a0, b0, s0, i0, d1, a1, b1 = conc(a0, 0, 2), conc(b0, 0, 2), conc(s0, 0, 1), conc(i0, 0, 1), conc(d1, 0, 2), conc(a1, 0, 2), conc(b1, 0, 1)
     body_raises = True if br else False
     levels = _levels(kind, a0, b0, s0, i0, d1, a1, b1)
@@ -78,7 +78,7 @@ def run_diff(kind: str, cmode: int, a0: int, b0: int, s0: int, i0: int, d1: int,
         ok = False
     # 2. coroutine conditions / captures on a SYNC callable: ValueError, never "truthy coroutine"
     witness2 = False
-    if cmode != 0:
+    if cmode in (1, 2):
         log_x, out_x = _run(sync_prog, cmode, tv, body_raises)
         inv_before_fails = kind == "method" and i0 == 1 and not v0
         if inv_before_fails:
@@ -98,7 +98,7 @@ def run_diff(kind: str, cmode: int, a0: int, b0: int, s0: int, i0: int, d1: int,
             witness2 = True
     # 3. ... also when only the INHERITED contracts (level 0) are coroutine conditions and the overriding level's own
     #    ones are plain: the first contract evaluated decides
-    if cmode != 0 and d1 == 2 and kind != "func":
+    if cmode in (1, 2) and d1 == 2 and kind != "func":
         log_y, out_y = _run(sync_prog, cmode, tv, body_raises, 0)
         inv_before_fails = kind == "method" and i0 == 1 and not v0
         base_has_pre = a0 > 0
@@ -119,7 +119,7 @@ def harnesses(tier: str) -> List[H]:
     out = []  # type: List[H]
     kinds = ["func", "method"] if tier == "quick" else list(ASYNC_KINDS)
     for kind in kinds:
-        for cmode in (0, 1, 2):
+        for cmode in (0, 1, 2, 3):
             for d1 in ((0,) if kind == "func" else (0, 1, 2)):
                 a1_values = [None] if d1 != 2 else ([0, 1] if tier == "quick" else [0, 1, 2])
                 for a1 in a1_values:
@@ -142,7 +142,8 @@ def harnesses(tier: str) -> List[H]:
                                  family="kind={} rendered with def and async def; conditions/captures on the async rendering: {}; "
                                         "pre 0..2, post 0..2, snapshot 0..1{}; subclass level {}; body returns / raises".format(
                                             kind, ["plain", "coroutine functions (suspending)",
-                                                   "plain functions returning awaitables"][cmode],
+                                                   "plain functions returning coroutines",
+                                                   "plain functions returning non-coroutine awaitables"][cmode],
                                             ", invariant 0..1" if kind == "method" else "",
                                             ["absent", "not overriding", "overriding with %s own preconditions" % a1][d1]),
                                  family_size=18 * (2 if kind == "method" else 1) * (1 if d1 < 2 else 2) * 2))
